@@ -755,6 +755,7 @@ type specInfo struct {
 	done    bool
 	axioms  []string
 	decl    []string
+	refQuant bool // the body quantifies over a reference-typed variable
 }
 
 func (fr *Frame) specSig(sf *SpecFn) *specInfo {
@@ -957,8 +958,41 @@ func (fr *Frame) prepareSpec(si *specInfo) {
 			eng.specCallees[sf.Name] = append(eng.specCallees[sf.Name], k)
 		}
 	}
+	si.refQuant = sf.Body != nil && eng.quantifiesOverRefs(sf.Body)
 	si.busy = false
 	si.done = true
+}
+
+func (eng *Engine) quantifiesOverRefs(e *CExpr) bool {
+	if e == nil {
+		return false
+	}
+	if e.Kind == "quant" {
+		for _, ts := range e.Types {
+			t := eng.parseType(ts)
+			if t == nil {
+				return true
+			}
+			switch t.Underlying().(type) {
+			case *types.Basic:
+			default:
+				return true
+			}
+		}
+	}
+	for _, a := range e.Args {
+		if eng.quantifiesOverRefs(a) {
+			return true
+		}
+	}
+	for _, ps := range e.Pats {
+		for _, a := range ps {
+			if eng.quantifiesOverRefs(a) {
+				return true
+			}
+		}
+	}
+	return false
 }
 
 func (vc *VC) heapNameOfInit(c string) string {
